@@ -1,9 +1,11 @@
 package sslreplay
 
 import (
+	"crypto"
 	"crypto/ecdsa"
 	"crypto/elliptic"
 	"crypto/rand"
+	"crypto/rsa"
 	"crypto/x509"
 	"crypto/x509/pkix"
 	"encoding/pem"
@@ -46,12 +48,22 @@ const (
 
 type ca struct {
 	cert *x509.Certificate
-	key  *ecdsa.PrivateKey
+	key  crypto.Signer
 	der  []byte
+	kind string
 }
 
-func newCA(cn string, serial int64) (*ca, error) {
-	k, err := ecdsa.GenerateKey(elliptic.P256(), rand.Reader)
+// newKey makes a key of the family: "ecdsa" (P-256) or "rsa" (2048 bits), which
+// also decides the TLS cipher suites the handshakes negotiate (ECDHE_ECDSA / ECDHE_RSA).
+func newKey(kind string) (crypto.Signer, error) {
+	if kind == "rsa" {
+		return rsa.GenerateKey(rand.Reader, 2048)
+	}
+	return ecdsa.GenerateKey(elliptic.P256(), rand.Reader)
+}
+
+func newCA(cn string, serial int64, kind string) (*ca, error) {
+	k, err := newKey(kind)
 	if err != nil {
 		return nil, err
 	}
@@ -59,7 +71,7 @@ func newCA(cn string, serial int64) (*ca, error) {
 	tpl := &x509.Certificate{SerialNumber: big.NewInt(serial), Subject: pkix.Name{CommonName: cn},
 		NotBefore: now.Add(-24 * time.Hour), NotAfter: now.Add(30 * 24 * time.Hour), IsCA: true, BasicConstraintsValid: true,
 		KeyUsage: x509.KeyUsageCertSign | x509.KeyUsageDigitalSignature}
-	der, err := x509.CreateCertificate(rand.Reader, tpl, tpl, &k.PublicKey, k)
+	der, err := x509.CreateCertificate(rand.Reader, tpl, tpl, k.Public(), k)
 	if err != nil {
 		return nil, err
 	}
@@ -67,7 +79,7 @@ func newCA(cn string, serial int64) (*ca, error) {
 	if err != nil {
 		return nil, err
 	}
-	return &ca{cert: c, key: k, der: der}, nil
+	return &ca{cert: c, key: k, der: der, kind: kind}, nil
 }
 
 func writePEM(path, typ string, der []byte, mode os.FileMode) error {
@@ -75,7 +87,7 @@ func writePEM(path, typ string, der []byte, mode os.FileMode) error {
 }
 
 func (a *ca) issue(dir, name, host string, serial int64, notBefore, notAfter time.Time) ([2]string, error) {
-	k, err := ecdsa.GenerateKey(elliptic.P256(), rand.Reader)
+	k, err := newKey(a.kind)
 	if err != nil {
 		return [2]string{}, err
 	}
@@ -87,7 +99,7 @@ func (a *ca) issue(dir, name, host string, serial int64, notBefore, notAfter tim
 	if ip := net.ParseIP(host); ip != nil {
 		tpl.DNSNames, tpl.IPAddresses = nil, []net.IP{ip}
 	}
-	der, err := x509.CreateCertificate(rand.Reader, tpl, a.cert, &k.PublicKey, a.key)
+	der, err := x509.CreateCertificate(rand.Reader, tpl, a.cert, k.Public(), a.key)
 	if err != nil {
 		return [2]string{}, err
 	}
@@ -105,16 +117,16 @@ func (a *ca) issue(dir, name, host string, serial int64, notBefore, notAfter tim
 	return [2]string{cf, kf}, nil
 }
 
-// MakeCreds writes all credentials below dir.
-func MakeCreds(dir string) (*Creds, error) {
+// MakeCreds writes all credentials of one key family ("ecdsa" | "rsa") below dir.
+func MakeCreds(dir, kind string) (*Creds, error) {
 	if err := os.MkdirAll(dir, 0o700); err != nil {
 		return nil, err
 	}
-	ca1, err := newCA("cedarverif G04 test CA", 1)
+	ca1, err := newCA("cedarverif G04 test CA", 1, kind)
 	if err != nil {
 		return nil, err
 	}
-	ca2, err := newCA("cedarverif G04 OTHER CA", 2)
+	ca2, err := newCA("cedarverif G04 OTHER CA", 2, kind)
 	if err != nil {
 		return nil, err
 	}
